@@ -232,17 +232,27 @@ def p_check(case):
     if not np.all(np.isfinite(prim)) or np.max(np.abs(prim)) > 1e3:
         res.tag("primal_unstable_skipped")
         return res
-    dv = rng.standard_normal(base.shape) if base.ndim else np.asarray(1.0)
+    # direction scaled per component (coefficients of different derivative orders differ by many decades):
+    # a step h along dv changes every component by about h relative to its own size
+    comp = np.maximum(np.abs(base), 1e-3 * max(float(np.max(np.abs(base))), 1e-12)) if base.ndim else np.asarray(max(abs(float(base)), 0.1))
+    dv = (rng.standard_normal(base.shape) * comp) if base.ndim else comp
     jb, jd = jnp.asarray(base), jnp.asarray(dv)
     ok, r = res.lib("jvp_param", lambda: jax.jvp(f, (jb,), (jd,)), key=k + ":jvp")
     Jd = None
     if ok:
         Jd = np.asarray(r[1])
         res.true("param_jvp_finite", bool(np.all(np.isfinite(Jd))), key=k + ":jvp_finite", msg="NaN/inf in forward derivative w.r.t. " + name)
-        h = 1e-5 * max(0.1, float(np.max(np.abs(base))))
+        # central differences: truncation error ~ (zmax*h)^2 for stiff symbols, round-off ~ eps/h
+        try:
+            Lx, dtx = reg.eff_L_dt(spec)
+            kapx = 2 * math.pi / Lx * orc.rfft_wavenumbers(D, N)
+            zmax = 0.0 if cls == "Wave" else float(np.max(np.abs(model.symbol(spec, kapx) * dtx)))
+        except Exception:  # noqa: BLE001
+            zmax = 0.0
+        h = 1e-5 / max(1.0, zmax / 10.0)
         fd = (np.asarray(f(jnp.asarray(base + h * dv))) - np.asarray(f(jnp.asarray(base - h * dv)))) / (2 * h)
         if np.all(np.isfinite(Jd)) and np.all(np.isfinite(fd)):
-            res.claim("param_jvp_equals_central_differences", float(np.max(np.abs(Jd - fd))), fd_tol(fd, prim) * 10, key=k + ":jvp_value")
+            res.claim("param_jvp_equals_central_differences", float(np.max(np.abs(Jd - fd))), fd_tol(fd, prim) * 100, key=k + ":jvp_value")
             res.nontrivial = bool(np.max(np.abs(fd)) > 1e-9)
     w = jnp.asarray(rng.standard_normal(prim.shape))
     ok, g = res.lib("grad_param", lambda: jax.grad(lambda v: jnp.sum(w * f(v)))(jb), key=k + ":grad")
@@ -253,7 +263,8 @@ def p_check(case):
             a = float(np.sum(np.asarray(w) * Jd))
             b = float(np.sum(g * dv))
             sc = float(np.sqrt(np.sum(np.asarray(w) ** 2) * np.sum(Jd**2))) + abs(b)
-            res.claim("param_reverse_equals_forward", abs(a - b), 1e-10 * sc + 1e-300, key=k + ":adjoint")
+            floor = 1e-13 * float(np.sqrt(np.sum(np.asarray(w) ** 2))) * float(np.max(np.abs(prim))) * (float(np.max(np.abs(dv))) / max(float(np.max(np.abs(base))), 1e-300) if base.ndim else 1.0)
+            res.claim("param_reverse_equals_forward", abs(a - b), 1e-10 * sc + floor + 1e-300, key=k + ":adjoint")
     return res
 
 
